@@ -180,6 +180,7 @@ from .config import (
 )
 from .credentials import match_partial_url, match_urls
 from .errors import GitProtocolError, HangupException, NotGitRepository, SendPackError
+from .file import FileLocked
 from .object_format import DEFAULT_OBJECT_FORMAT
 from .object_store import GraphWalker
 from .objects import ObjectID, valid_hexsha
@@ -3065,22 +3066,51 @@ class LocalGitClient(GitClient):
                         _to_optional_dict(new_refs), ref_status=ref_status
                     )
 
+            applied: list[tuple[Ref, ObjectID, ObjectID]] = []
             for refname, new_sha1 in new_refs.items():
                 old_sha1 = old_refs.get(refname, ZERO_SHA)
-                if new_sha1 != ZERO_SHA:
-                    if new_sha1 not in target.object_store:
-                        # Never let a ref name an object the target lacks
-                        msg = f"missing necessary objects for {refname!r}"
-                        _progress(msg.encode())
-                        ref_status[refname] = msg
-                    elif not target.refs.set_if_equals(refname, old_sha1, new_sha1):
-                        msg = f"unable to set {refname!r} to {new_sha1!r}"
-                        _progress(msg.encode())
-                        ref_status[refname] = msg
-                else:
-                    if not target.refs.remove_if_equals(refname, old_sha1):
-                        _progress(f"unable to remove {refname!r}".encode())
-                        ref_status[refname] = "unable to remove"
+                try:
+                    if new_sha1 != ZERO_SHA:
+                        if new_sha1 not in target.object_store:
+                            # Never let a ref name an object the target lacks
+                            msg = f"missing necessary objects for {refname!r}"
+                            _progress(msg.encode())
+                            ref_status[refname] = msg
+                        elif not target.refs.set_if_equals(refname, old_sha1, new_sha1):
+                            msg = f"unable to set {refname!r} to {new_sha1!r}"
+                            _progress(msg.encode())
+                            ref_status[refname] = msg
+                    else:
+                        if not target.refs.remove_if_equals(refname, old_sha1):
+                            _progress(f"unable to remove {refname!r}".encode())
+                            ref_status[refname] = "unable to remove"
+                except (OSError, FileLocked) as exc:
+                    # E.g. somebody else holds the lock on this ref. Report
+                    # it for this ref instead of abandoning the push half way.
+                    msg = f"unable to update {refname!r}: {exc}"
+                    _progress(msg.encode())
+                    ref_status[refname] = msg
+                if atomic:
+                    if refname in ref_status:
+                        # A ref changed after the validation above. Undo
+                        # what was applied so far: all or nothing.
+                        for done_ref, done_old, done_new in reversed(applied):
+                            try:
+                                if done_old == ZERO_SHA:
+                                    target.refs.remove_if_equals(done_ref, done_new)
+                                elif done_new == ZERO_SHA:
+                                    target.refs.add_if_new(done_ref, done_old)
+                                else:
+                                    target.refs.set_if_equals(
+                                        done_ref, done_new, done_old
+                                    )
+                            except (OSError, FileLocked):
+                                pass
+                        for other in new_refs:
+                            if other not in ref_status:
+                                ref_status[other] = "atomic push failed"
+                        break
+                    applied.append((refname, old_sha1, new_sha1))
 
         return SendPackResult(_to_optional_dict(new_refs), ref_status=ref_status)
 
